@@ -255,6 +255,11 @@ func NeedBlank(l, r Tok) bool {
 	if l.K == "num" && r.T == "-" {
 		return false
 	}
+	// '.' and '..' are complete tokens: a name (an operator name, in that position) may follow directly, a number
+	// or another dot may not ('.5', '...')
+	if (l.T == "." || l.T == "..") && (r.K == "name" || r.K == "opname" || r.K == "func") {
+		return false
+	}
 	// '/' '/' would become '//', '<' '=' would become '<=' etc.; such pairs are
 	// never adjacent in renderings of this AST.
 	return wordyEnd(l) && wordyStart(r)
